@@ -109,6 +109,10 @@ def run(prog: Program, res: Result, tier: str) -> None:
     ok = len(sites) >= 1 and all(n_ is not None and norm(n_) == "self.header.nsamples" for c, n_ in sites)
     (res.ok if ok else res.bad)("R2", fi, fi.node, "the default inverse uses header.nsamples, the length rfft recorded" if ok else
                                 "FourierSeries.ifft does not invert to header.nsamples", construct="ifft", key="ifft-length")
+    vi_, whyi_ = kernelspec.compare(fi, "ifft")
+    if vi_ == "incomparable":
+        raise AnalysisError(f"FourierSeries.ifft cannot be compared with its reference definition: {whyi_[0]}")
+    (res.ok if vi_ == "same" else res.bad)("R2", fi, fi.node, ("; ".join(whyi_))[:600], construct="ifft", key="ifft:definition")
     # a spectrum read back from a headered file: the SIGPROC header's nsamples is derived from the file size, i.e. it
     # counts the floats of the spectrum (n + 2), not the samples of the series - the length ifft inverts to must be
     # re-derived from the number of bins (F53)
@@ -195,6 +199,10 @@ MUTANTS += [
      "old": "        return cls(spec, header.new_header({\"nsamples\": 2 * (spec.size - 1)}))", "new": "        return cls(spec, header)"},
     {"id": "c12-from-spec-float-count", "file": "sigpyproc/fourierseries.py", "expect": "C12.R2",
      "old": "        return cls(spec, header.new_header({\"nsamples\": 2 * (spec.size - 1)}))", "new": "        return cls(spec, header.new_header({\"nsamples\": 2 * spec.size}))"},
+]
+MUTANTS += [
+    {"id": "c12-ifft-last-bin-real", "file": "sigpyproc/fourierseries.py", "expect": "C12.R2",
+     "old": "            tim_ar = kernels.nb_irfft(self.data, self.header.nsamples)", "new": "            spec = self.data.copy()\n            spec[-1] = spec[-1].real\n            tim_ar = kernels.nb_irfft(spec, self.header.nsamples)"},
 ]
 TWINS = [
     {"id": "c12-twin-from-spec-float-size", "file": "sigpyproc/fourierseries.py",
